@@ -140,6 +140,10 @@ def c04_2(ctx, r):
                     "a job enters the failed set without its return code having tested non-zero: dependents of successful jobs are canceled", guards=sorted(("" if p else "not ") + f for f, p in forms))
             a = c.args[0] if c.args else None
             r.check(a is not None and ctx.src(a).endswith(".name"), f"{fn.short}: the failed set holds job names", key_of(fn, "failed set element"), fn.loc(c), f"failed_jobs receives {ctx.src(a) if a is not None else None}")
+            # one name per insertion: add(name) - update(name) / extend(name) would insert the *characters* of the name
+            r.check(c.func.attr in ("add", "append") or not (a is not None and ctx.src(a).endswith(".name")), f"{fn.short}: a single name is inserted with add()", key_of(fn, f"failed set .{c.func.attr}() of one name"), fn.loc(c),
+                    f"`{ctx.src(c)}` hands one job name to {c.func.attr}(), which iterates its argument: the set receives the name's characters, so a blocker's failure is matched only by one-letter job names - flagged "
+                    "dependents of a failed job are not canceled and are handed to a node", "is canceled ... exactly when at least one of its blocking jobs failed")
 
 
 @rule(P, "C04.3", "T3", "the cancel branch re-arms the enclosing fixpoint loop", min_obligations=2)
